@@ -139,7 +139,7 @@ def _pool(fn, items):
         return pool.map(fn, items, chunksize=1)
 
 
-def differing(seed: int, n: int):
+def differing(seed: int, n: int, shared: int = 0):
     """→ (all outcomes, the ones whose real and model texts both exist and differ)"""
     from . import encodecorr
 
@@ -150,7 +150,8 @@ def differing(seed: int, n: int):
     outs = encodecorr.generate_and_compare(seed, n, spelled=max(8, n // 4))
     for o in outs:
         o["path"] = "single"
-    outs += encodecorr2.generate_and_compare(seed, max(1, n // 2), paths=("multi",))     # lists of 1..4 sections
+    # lists of 1..4 sections; `shared` more of them in which sections are given the very same RTFBody / header objects
+    outs += encodecorr2.generate_and_compare(seed, max(1, n // 2), paths=("multi",), shared=shared)
     bad = [o for o in outs if o["verdict"] == "differ" and "real" in o and "text" in o.get("model", {})]
     return outs, bad
 
@@ -158,9 +159,12 @@ def differing(seed: int, n: int):
 def run_cross(fam, res: common.Result):
     n = N_QUICK if res.tier == "quick" else N_THOROUGH
     seed = res.seed * 100 + int(fam.prop[1:])          # each property explores its own slice of the class
-    outs, bad = differing(seed, n)
+    # a family may ask for documents of the shared-component class as well (Family.cross_shared: a fraction of n)
+    outs, bad = differing(seed, n, shared=int(n * getattr(fam, "cross_shared", 0)))
     for o in outs:
         res.count(f"cross-encoder:{o.get('path', 'single')}:{o['verdict']}")
+        if (o["spec"].get("share") or {}).get("body"):
+            res.count(f"cross-encoder:shared-components:{o['verdict']}")
         if o["spec"].get("spelling"):
             res.count(f"cross-encoder:spelled-containers:{o['verdict']}")
     res.extra["cross_encoder"] = dict(documents=len(outs), differing=len(bad),
